@@ -11,7 +11,6 @@ from __future__ import annotations
 
 import math
 import random
-import traceback
 
 import numpy as np
 
@@ -66,12 +65,22 @@ def make_case(seed, ka, kb, k, nprobe):
 # ------------------------------------------------------------------------------------------
 
 def explicit_raise(e):
-    """Was the exception raised by an explicit `raise` statement inside scenic?"""
-    tb = traceback.extract_tb(e.__traceback__)
-    if not tb:
+    """Was the exception raised by an explicit `raise` statement inside scenic?  (Decided on the
+    byte code of the innermost frame, not on the source text, which may change on disk.)"""
+    import dis
+
+    tb = e.__traceback__
+    if tb is None:
         return False
-    fr = tb[-1]
-    return "/scenic/" in fr.filename.replace("\\", "/") and (fr.line or "").lstrip().startswith("raise")
+    while tb.tb_next is not None:
+        tb = tb.tb_next
+    code = tb.tb_frame.f_code
+    if "/scenic/" not in code.co_filename.replace("\\", "/"):
+        return False
+    for ins in dis.get_instructions(code):
+        if ins.offset == tb.tb_lasti:
+            return ins.opname == "RAISE_VARARGS"
+    return False
 
 
 def documented(e):
